@@ -44,8 +44,8 @@ from .c11 import HANG_S, Hang, watchdog
 PROPERTY = "C13"
 RULE = (
     "case = (env in tsp/cvrp/cvrptw(scale=True)/op/pctsp/spctsp/sdvrp/pdp, n 3-8, beam width 2..n (pdp: mostly <= number "
-    "of pickups), B 1-4, instance seed, AM policy seed 0-3 x spread {1.25,1.5,2.0}, select_best on/off, capacity / "
-    "max_length variant, float64 slice in thorough). Instances whose forced first moves are not feasible at reset "
+    "of pickups; 1/8 of the cases beam_width=None = env default), B 1-4, instance seed, AM policy seed 0-3 x spread {1.25,1.5,2.0}, select_best on/off, capacity / "
+    "max_length variant, env check_solution on/off, float64 slice in thorough). Instances whose forced first moves are not feasible at reset "
     "(OP start rule, C12) are excluded and counted. Non-trivial = the reference measured real re-ordering (some kept "
     "beam's parent slot != its own slot) and, for variable-length envs, is additionally classed by whether beams "
     "finish at different steps; distinct = case hash. Decisive fraction (W-th/(W+1)-th candidate gap > 1e-5) is "
@@ -62,7 +62,8 @@ ASSUMPTIONS = [
     "1e-5*(1+sum|terms|); float64 slice 1e-9",
     "spy env delegates every attribute to the real env; harness keys vf_* ride along in the TensorDict (the decoder and "
     "the envs ignore unknown keys)",
-    "OP: instances where nodes 1..W are not all feasible first moves are excluded (start rule F17 belongs to C12)",
+    "OP: instances whose forced first moves (nodes 1..W) are not all feasible are excluded (start rule F17 belongs to "
+    "C12); instances where the start rule samples feasible (possibly repeated) starts are kept",
 ]
 TIME_CAP = {"quick": 300, "thorough": 2400}
 
@@ -76,18 +77,19 @@ GAP = 1e-5
 @st.composite
 def cases(draw, tier="quick"):
     envn = draw(st.sampled_from(ENVS))
-    n = draw(st.integers(3, 8))
+    n = draw(st.sampled_from([3, 4, 5, 6, 7, 8]))
     if envn == "pdp":
         n = max(2, 2 * (n // 2))
-        wmax = max(2, n // 2) if draw(st.integers(0, 4)) else n  # beyond the pickups the forced starts repeat
+        wmax = max(2, n // 2) if draw(st.sampled_from([True] * 4 + [False])) else n  # beyond the pickups the forced starts repeat
     else:
         wmax = n
-    W = draw(st.integers(2, wmax))
+    W = draw(st.sampled_from(list(range(2, wmax + 1))))
     return dict(
         env=envn, n=n, W=W, B=draw(st.integers(1, 4)), iseed=draw(st.integers(0, 2 ** 20)),
         pseed=draw(st.integers(0, 3)), spread=draw(st.sampled_from([1.25, 1.5, 1.5, 1.6, 2.0])),
-        select_best=draw(st.booleans()), variant=draw(st.integers(0, 3)),
-        f64=(tier != "quick") and draw(st.integers(0, 3)) == 0,
+        select_best=draw(st.booleans()), variant=draw(st.integers(0, 3)), check=draw(st.booleans()),
+        f64=(tier != "quick") and draw(st.sampled_from([False, False, False, True])),
+        wdefault=draw(st.sampled_from([False] * 7 + [True])),  # beam_width=None: the env's own number of starts
     )
 
 
@@ -113,7 +115,9 @@ def minimize(case):
     lo = 2 if c["env"] == "pdp" else 3
     if c["n"] - step >= lo:
         yield {**c, "n": c["n"] - step, "W": min(c["W"], c["n"] - step)}
-    for key, val in (("f64", False), ("select_best", False), ("variant", 0), ("spread", 1.5), ("pseed", 0)):
+    for key, val in (("f64", False), ("select_best", False), ("check", True), ("wdefault", False), ("variant", 0),
+                     ("spread", 1.5),
+                     ("pseed", 0)):
         if c.get(key) != val:
             yield {**c, key: val}
 
@@ -194,12 +198,22 @@ def execute(case, ctx):
     env, inst, td0 = make_batch(envn, cfg, B, case["iseed"], double=f64)
     policy = build_policy("am", envn, env, seed=case["pseed"], spread=case["spread"], double=f64)
     policy.eval()
+    wdefault = bool(case.get("wdefault", False))
+    if wdefault:
+        # documented default: beam_width=None -> env.get_num_starts(td) (trusted here, C12); a width below 2 is
+        # rejected by a documented assertion
+        W = int(env.get_num_starts(td0))
+        if W < 2:
+            ctx.exclude("default_width<2")
+            return
 
     # ---- forced first moves must be feasible at reset, otherwise the case is C12's business
     m0 = expand_starts(td0, W)["action_mask"]
-    if envn == "op" and not bool(td0["action_mask"][:, 1:W + 1].all()):
-        ctx.exclude("op_nodes_1..W_not_all_feasible(C12/F17)")
-        return
+    # OP: with fewer than W feasible nodes in some row the start rule samples feasible nodes from the global RNG (seeded
+    # identically here and before the policy call; the reference uses the starts the spy saw anyway); otherwise it
+    # hands out nodes 1..W whether feasible or not (F17, C12) - those instances are excluded right here
+    if envn == "op" and bool((td0["action_mask"][:, 1:].sum(-1) < W).any()):
+        ctx.event("op_sampled_starts")
     torch.manual_seed(case["iseed"])
     a0 = ctx.guard(env.select_start_nodes, td0.clone(), num_starts=W, what=f"select_start_nodes|{envn}")
     if a0.shape[0] != m0.shape[0] or int(a0.max()) >= m0.shape[1] or int(a0.min()) < 0 \
@@ -208,19 +222,20 @@ def execute(case, ctx):
         return
 
     ctx.event(f"env:{envn}")
-    ctx.event(f"width:{_regime(W, n)}")
+    ctx.event(f"width:{_regime(W, n)}" + ("(default)" if wdefault else ""))
     ctx.event("select_best" if sb else "all_beams")
+    ctx.event("env_checker_on" if case.get("check", True) else "env_checker_off")
     if f64:
         ctx.event("float64")
     try:
         with watchdog():
-            _run(case, ctx, cfg, env, inst, td0, policy, slice_)
+            _run(case, ctx, cfg, env, inst, td0, policy, slice_, W, wdefault)
     except Hang:
         ctx.violation(f"hang|{slice_}", f"beam search / replay did not return within {HANG_S}s at toy size")
 
 
-def _run(case, ctx, cfg, env, inst, td0, policy, slice_):
-    envn, W, B = case["env"], int(case["W"]), int(case["B"])
+def _run(case, ctx, cfg, env, inst, td0, policy, slice_, W, wdefault):
+    envn, B = case["env"], int(case["B"])
     f64 = bool(case["f64"])
     sb = bool(case["select_best"])
     n = cfg["n"]
@@ -236,9 +251,16 @@ def _run(case, ctx, cfg, env, inst, td0, policy, slice_):
     tdin.set("vf_len", torch.zeros(B, dtype=torch.long))
     tdin.set("vf_inst", torch.arange(B))
     torch.manual_seed(case["iseed"])
-    with torch.no_grad():
-        out = ctx.guard(policy, tdin, spy, what=f"policy|{slice_}", decode_type="beam_search", beam_width=W,
-                        select_best=sb, return_actions=True, return_sum_log_likelihood=False, max_steps=6 * n + 24)
+    # check=False: the env as constructed with the documented check_solution=False (no checker between beam search and
+    # the caller); the env object is shared per process, so the flag is restored right after the call
+    check0 = env.check_solution
+    env.check_solution = bool(case.get("check", True))
+    try:
+        with torch.no_grad():
+            out = ctx.guard(policy, tdin, spy, what=f"policy|{slice_}", decode_type="beam_search",
+                            beam_width=(None if wdefault else W), select_best=sb, return_actions=True, return_sum_log_likelihood=False, max_steps=6 * n + 24)
+    finally:
+        env.check_solution = check0
     A_ret, ll_ret, rew_ret = out["actions"], out["log_likelihood"], out["reward"].reshape(-1)
     T = A_ret.shape[1]
     Rret = B if sb else R
@@ -450,6 +472,6 @@ def _run(case, ctx, cfg, env, inst, td0, policy, slice_):
 
 
 SUBS = [
-    Sub("beam_search", execute, strategy=lambda tier: cases(tier), budget={"quick": 320, "thorough": 6000}, shards=16,
+    Sub("beam_search", execute, strategy=lambda tier: cases(tier), budget={"quick": 480, "thorough": 6000}, shards=16,
         shrink=False, minimize=minimize),
 ]
